@@ -710,7 +710,14 @@ def gen_unary(src, op):
             return ["-", dec.gen_coeff(src), dec.gen_exp(src)], shape
         return [sgn(src), "0", dec.gen_exp(src)], shape
     if op == "exp":
-        shape = src.weighted([(5, "moderate"), (3, "tiny"), (3, "large"), (3, "threshold"), (2, "rand"), (1, "zero")])
+        shape = src.weighted([(5, "moderate"), (3, "tiny"), (3, "large"), (3, "threshold"), (3, "threshold-multiple"), (2, "rand"), (1, "zero")])
+        if shape == "threshold-multiple":
+            # far beyond the thresholds, at 2^k times the argument where the result leaves the range (the library raises e^(x / 2^k) to the
+            # power 2^k by squaring: intermediate results cross the edge of the range there) and a little to either side
+            base = src.choice([14149385, 14220766, 14221459])        # thousandths
+            k = src.int(1, 12)
+            x = base * 2 ** k * (10000 + src.int(-150, 150)) // 10000
+            return ["" if base == 14149385 and src.bool(0.7) else "-", str(x), -3], shape
         if shape == "moderate":
             return [sgn(src, 0.5), dec.gen_coeff(src), -src.int(0, 36)], shape
         if shape == "tiny":
